@@ -33,7 +33,7 @@ func oracleC13(r *Result) {
 		w.probe("logout_response_checked")
 		m := rep.Msg
 		v := viewSubmitted(t, "LogoutRequest")
-		bodyBroken := bodyFaultFired(t) && t.Msg.BodyFault != "short"
+		bodyBroken := bodyFaultFired(t) && !benignBody(t.Msg.BodyFault)
 		rec := firstCall(t, "GetEntityByID")
 		var cfg *SPCfg
 		if rec != nil {
@@ -204,7 +204,7 @@ func oracleC12(r *Result) {
 			// the statement does not name well-formedness; read forgivingly so that the named conditions can still be evaluated
 			env, err = ParseXMLLenient(t.Sent.Body)
 		}
-		if err != nil || bodyFaultFired(t) && t.Msg.BodyFault != "short" {
+		if err != nil || bodyFaultFired(t) && !benignBody(t.Msg.BodyFault) {
 			w.probe("attrq_answered_unreadable_request")
 			continue
 		}
@@ -268,8 +268,17 @@ func oracleC12(r *Result) {
 			bad("issuer", fmt.Sprintf("Issuer = %q", t.Sent.EntityID), m.Issuer)
 		}
 		uc := firstCall(t, "SetUserinfoWithLoginName")
-		subj := q.Path(NSA, "Subject", NSA, "NameID")
-		if uc == nil || uc.UserIdx < 0 || subj == nil || len(uc.Args) == 0 || uc.Args[0] != subj.TextContent() {
+		// which of several Subject / NameID elements of a (schema-invalid) query is "the queried subject" is not fixed by the
+		// statement: the lookup has to name one of them
+		named := false
+		for _, sj := range q.Childs(NSA, "Subject") {
+			for _, nid := range sj.Childs(NSA, "NameID") {
+				if uc != nil && len(uc.Args) > 0 && uc.Args[0] == nid.TextContent() {
+					named = true
+				}
+			}
+		}
+		if uc == nil || uc.UserIdx < 0 || !named {
 			bad("subject", "the answer describes the user storage resolved for the queried subject", fmt.Sprintf("lookup %v", uc != nil))
 			continue
 		}
